@@ -593,6 +593,8 @@ func c17Foreign(rep *Report) {
 		{"nested path", `{"call":"c6","function":"Sub.Ping","args":[7]}`, `"F/sub/7"`},
 		{"whitespace and unicode id", "{ \"call\" : \"ü-7\" ,\n \"function\":\"WhoAmI\", \"args\": [] }", ""},
 		{"method without results", `{"call":"c8","function":"NoRet","args":[1]}`, "null"},
+		{"upper-case uuid as call id", `{"call":"E621E1F8-C36C-495A-93FC-0C247A3E6E5F","function":"Add","args":[2,2]}`, "4"},
+		{"mixed-case call id with blanks", `{"call":" Req 9 ","function":"Add","args":[3,3]}`, "6"},
 	}
 	for _, f := range frames {
 		rep.Evaluations++
